@@ -1,4 +1,5 @@
 """Per-property configuration of ./check (what counts as a non-trivial case, extra machinery)."""
+from extras import mem_sweep, race_run
 
 
 def _triv_reject(op, res):
@@ -6,7 +7,8 @@ def _triv_reject(op, res):
 
 
 PROPS = {
-    "C01": {"rule": "curve.add/double/smul/sbmul/oncurve on a structured point pool (multiples of G by boundary scalars, negatives, endomorphism images, infinity) x structured scalar byte strings (empty, zero, >=N, >32 bytes, single bits, NAF carry patterns, table rows); real code vs Lean affine group law.",
+    "C01": {"rule": "curve.add/double/smul/sbmul/oncurve on a structured point pool (multiples of G by boundary scalars, negatives, endomorphism images, infinity) x structured scalar byte strings (empty, zero, >=N, >32 bytes, single bits, NAF carry patterns, table rows); real code vs Lean affine group law. Plus stream C01J: jac.add/double/addv1-4/dblv1-2/toaffine (hooks, raw word vectors) on the pool in every Jacobian representation class x coordinate dressing (normalised, raw Mul2 output, NegateVal output, +P/carries) x aliasing pattern, jac.oncurve/decompress, table.get; real code vs the IR regenerated from bec/btcec.go run over the regenerated field ops.",
+            "gens": ["C01", "C01J"],
             "trivial": lambda op, res: False},
     "C02": {"rule": "sign d h over boundary keys (1, 2, N-1, N-2, leading-zero keys) x hashes of length 0..100 and values 0, N-1, N, N+1, 2^256-1; (r,s) compared with the Lean RFC 6979 model; repeated call must agree.",
             "trivial": lambda op, res: False},
@@ -32,9 +34,9 @@ PROPS = {
             "trivial": lambda op, res: False},
     "C15": {"rule": "all decoders on the negative generators of C05/C06/C08/C11/C12/C13/C14/C07 plus raw fuzz (lengths 0..300, structured prefixes), non-UTF-8 text, 4 nil/non-nil envelope combinations x malformed hex; a Go panic is reported as `panic` and never matches the model.",
             "trivial": lambda op, res: False},
-    "C16": {"rule": "heap-model ops (mem.*) comparing the whole backing array after the call, plus a reflection sweep over every exported function with canary-filled slice windows (spare capacity 0..64), deep-copied big.Int/key/signature twins and a repeated call.",
+    "C16": {"extra": [mem_sweep], "rule": "heap-model ops (mem.*) comparing the whole backing array after the call, plus a reflection sweep over every exported function with canary-filled slice windows (spare capacity 0..64), deep-copied big.Int/key/signature twins and a repeated call.",
             "trivial": lambda op, res: False},
-    "C17": {"rule": "once-discipline facts regenerated from the source and checked by `decide`; race-detector run of 2..64 goroutines over shared curve/keys/xkeys/codecs with first-use races, every result compared with the sequential one.",
+    "C17": {"extra": [race_run], "rule": "once-discipline facts regenerated from the source and checked by `decide`; race-detector run of 2..64 goroutines over shared curve/keys/xkeys/codecs with first-use races, every result compared with the sequential one.",
             "trivial": lambda op, res: False},
     "C18": {"rule": "xk histories: exhaustive sequences (length <=3 quick, <=4 thorough) over {child normal, child hardened, neuter, path, setnet, zero, string-reparse} applied to every live key from private and public roots, plus random length-30 sequences; all live keys observed after every step.",
             "trivial": lambda op, res: False},
